@@ -1101,9 +1101,9 @@ func c02PrintBounds(c *Ctx, r *Report, rule string) {
 	sort.Strings(left)
 	r.extra["print_scope_left_to_the_repack_clause"] = left
 	sort.Slice(fns, func(i, j int) bool { return fnDisplay(fns[i]) < fnDisplay(fns[j]) })
-	saved := withStrings
-	withStrings = true
-	defer func() { withStrings = saved }()
+	saved, savedAll := withStrings, withAllSlices
+	withStrings, withAllSlices = true, true
+	defer func() { withStrings, withAllSlices = saved, savedAll }()
 	bp := newBoundsProver(c, e, scope)
 	counter := map[string]int{}
 	for _, f := range fns {
